@@ -96,13 +96,68 @@ func CheckWellFormed(out []byte, lineEnding string) (*jsonx.Node, string) {
 	return node, ""
 }
 
+// MaxAlts returns the largest number of alternative encodings any field of the
+// placement admits.
+func MaxAlts(p Placement) int {
+	n := 0
+	var walk func(specs []*Spec)
+	walk = func(specs []*Spec) {
+		for _, s := range specs {
+			if s.Alts > n {
+				n = s.Alts
+			}
+			walk(s.Children)
+		}
+	}
+	for _, seg := range p.With {
+		walk(seg)
+	}
+	walk(p.Call)
+	return n
+}
+
+// DiffFields compares a decoded field object with the expectation for the
+// placement, trying each acceptable alternative encoding.
+func DiffFields(got *jsonx.Node, p Placement, r Ref) string {
+	first := ""
+	for alt := 0; alt <= MaxAlts(p); alt++ {
+		r.Alt = alt
+		want := jsonx.O()
+		ExpectFields(want, p, r)
+		d := jsonx.Diff(got, want, CmpNum)
+		if d == "" {
+			return ""
+		}
+		if alt == 0 {
+			first = d
+		}
+	}
+	return first
+}
+
 // CheckTree is the C02 oracle on an already parsed line.
 func CheckTree(got *jsonx.Node, c Cfg, e Ent, p Placement) string {
+	first := ""
+	for alt := 0; alt <= MaxAlts(p); alt++ {
+		r := c.Ref()
+		r.Alt = alt
+		d := checkTreeAlt(got, c, e, p, r)
+		if d == "" {
+			return ""
+		}
+		if alt == 0 {
+			first = d
+		}
+	}
+	return first
+}
+
+func checkTreeAlt(got *jsonx.Node, c Cfg, e Ent, p Placement, r Ref) string {
 	want := jsonx.O()
 	for _, m := range c.ExpectMeta(e) {
 		want.Add(m.Key, m.Val)
 	}
-	ExpectFields(want, p, c.Ref())
+	ExpectFields(want, p, r)
 	g := got
 	if e.Stack != "" && c.StackKey != "" {
 		// the stack trace is a top-level member (zap emits it last)
